@@ -431,6 +431,28 @@ def rule_until(program, ctx, prop=P, rid="C08.until"):
         ctx.bad(finding_func(prop, rid, ps, "the kind-5 branch no longer scans the author index", text="def _post_save(...) :: scan"))
 
 
+def rule_whole_event(program, ctx, prop=P, rid="C08.whole"):
+    ctx.rule(
+        rid,
+        "a deletion request is carried out in full: DBStorage.post_save hands process_tags the very event it was given (parameter not re-bound, no trimmed copy) - "
+        "process_tags is also where the kind-5 DELETEs are issued, so an 'index only the first N tags' cap silently ignores the e tags after position N",
+        floor=1,
+    )
+    ps = program.func("nostr_relay.storage.db:DBStorage.post_save")
+    ev = ps.args.args[1].arg
+    reb = [s_ for s_ in stores_of(ps, ev)]
+    for s_ in reb:
+        ctx.bad(finding_at(prop, rid, s_, f"post_save re-binds `{ev}` (`{ast.unparse(s_)[:50]}`): process_tags then works on another object than the accepted event"))
+    calls = [c for c in ast.walk(ps) if isinstance(c, ast.Call) and call_name(c).endswith("process_tags")]
+    for c in calls:
+        if len(c.args) >= 2 and dotted(c.args[1]) == ev and not reb:
+            ctx.ok(rid, c, f"process_tags(connection, {ev})")
+        elif len(c.args) < 2 or dotted(c.args[1]) != ev:
+            ctx.bad(finding_at(prop, rid, c, f"process_tags is given `{ast.unparse(c.args[1])[:40] if len(c.args) > 1 else ''}`, not the accepted event"))
+    if not calls:
+        ctx.bad(finding_func(prop, rid, ps, "post_save no longer calls process_tags", text="def post_save(...) :: process_tags"))
+
+
 def rule_deletes(program, ctx, prop=P, rid="C08.deletes"):
     ctx.rule(
         rid,
@@ -480,6 +502,7 @@ def run(program, ctx):
 
     c07.rule_sqlregion(program, ctx, prop=P, rid="C08.txn")
     c07.rule_overrides(program, ctx, prop=P, rid="C08.overrides")
+    rule_whole_event(program, ctx)
     # the deletion and its DELETEs are one transaction only while the driver opens transactions at all
     c07.rule_isolation(program, ctx, prop=P, rid="C08.isolation")
     from . import c10
